@@ -879,7 +879,12 @@ class Parser(object):
                     'Expected a single glyphclass after "from"', location
                 )
             return self.ast.AlternateSubstStatement(
-                old_prefix, old[0], old_suffix, new[0], location=location
+                old_prefix,
+                old[0],
+                old_suffix,
+                new[0],
+                forceChain=hasMarks,
+                location=location,
             )
 
         num_lookups = len([l for l in lookups if l is not None])
